@@ -130,11 +130,20 @@ def gen_cases(tier, rng):
                             "<!--<script></script>-->"]:
             for last in ("~", tc.hx("s"), tc.hx("script")):
                 cases.append((tc.case([s], state=st, last=last, pol=tc.RAW_POL), "text"))
+    # one case per code point in every kind of position
+    from props import C08 as _c08
+    for cp in tc.codepoints(tier):
+        cases.append((tc.case([_c08.CP_DOC.replace("{c}", chr(cp))], pol=tc.RAW_POL), "cp"))
+    # size only (counters, caps, SIMD accumulators wrong past 2^8 / 2^10 / 2^16 units)
+    for text, st in tc.bulk_inputs(tier):
+        for exact in (0, 1):
+            cases.append((tc.case([text], exact=exact, state=st, last=tc.hx("s") if st != "-" else "~",
+                                  pol=tc.RAW_POL if st == "-" else "cdata=0"), "bulk"))
     # character references (C14's families, sub-sampled: C14 itself runs the full product)
     sub = c14.gen_cases("quick", rng)
     stride = 1 if tier == "thorough" else 4
     for i, (line, tag) in enumerate(sub):
-        if tag in ("edge", "wrap") or i % stride == 0:
+        if tag in ("edge", "wrap", "bulk") or i % stride == 0:
             cases.append((line, "charref"))
     # bounded-exhaustive token sequences around the constructs with long reconsume chains / look-aheads
     for prefix, alphabet, n, kw in GRAMMARS:
